@@ -77,6 +77,18 @@ impl MEv {
         s
     }
 
+    /// The typed lookups on the event as built: the FIRST occurrence of the key (own props precede
+    /// ambient ones), cast to the slot's type, else none. `Props::pull`: "If the key is present, and the
+    /// raw value can be converted into `V` … `Some`. Otherwise `None`. If the key appears multiple
+    /// times, the first value seen should be returned."
+    pub fn typed(&self) -> [Option<String>; 4] {
+        let mut out: [Option<String>; 4] = Default::default();
+        for (slot, k) in SLOT_KEYS.iter().enumerate() {
+            out[slot] = self.first(key(*k)).and_then(|text| cast_text(slot, text));
+        }
+        out
+    }
+
     pub fn snap(&self) -> MSnap {
         MSnap {
             mdl: self.mdl.clone(),
@@ -84,7 +96,24 @@ impl MEv {
             msg: self.msg(),
             extent: self.extent,
             props: self.props.clone(),
+            typed: self.typed(),
         }
+    }
+}
+
+/// Does a value (given by its text; the typed keys' value sets make the text decisive) cast to the
+/// slot's type, and to what (Display of the result)?
+/// * Level: an `emit::Level` value, or text naming a level — the generated texts are the four canonical
+///   names (cast) or `trace` / `spam` / integers / booleans (clearly not levels);
+/// * Kind: an `emit::Kind` value or the text `span` / `metric`; anything else generated is not a kind;
+/// * i64 under `n`: generated values are integers (cast) or the texts `trace` / `spam` (not numbers);
+/// * bool under `flag`: generated values are booleans (cast) or those texts.
+pub fn cast_text(slot: usize, text: &str) -> Option<String> {
+    match slot {
+        0 => LEVEL_NAMES.iter().find(|n| **n == text).map(|n| n.to_string()),
+        1 => KIND_NAMES.iter().find(|n| **n == text).map(|n| n.to_string()),
+        2 => text.parse::<i64>().ok().map(|v| v.to_string()),
+        _ => text.parse::<bool>().ok().map(|v| v.to_string()),
     }
 }
 
@@ -95,6 +124,7 @@ pub struct MSnap {
     pub msg: String,
     pub extent: Option<(Option<u128>, u128)>,
     pub props: Vec<MP>,
+    pub typed: [Option<String>; 4],
 }
 
 impl MSnap {
@@ -102,6 +132,9 @@ impl MSnap {
     /// ORDERED property list — except inside an unordered block, which is compared as a multiset.
     pub fn agrees(&self, s: &Snap) -> bool {
         if self.mdl != s.mdl || self.tpl != s.tpl || self.msg != s.msg || self.extent != s.extent {
+            return false;
+        }
+        if self.typed != s.typed {
             return false;
         }
         if self.props.len() != s.props.len() {
@@ -151,6 +184,21 @@ pub fn model_pred(p: &Pred, ev: &MEv) -> bool {
             Some((_, point)) => *point < ts.nanos(),
             None => false,
         },
+        // MinLevelFilter: "The level to match is pulled from the KEY_LVL well-known property. Events
+        // that don't carry any specific level are treated as carrying a default one, as set by
+        // treat_unleveled_as" (else Level::default() = Info); matches when level >= min
+        Pred::MinLevel { min, default } => {
+            let rank = |name: &str| LEVEL_NAMES.iter().position(|n| *n == name).unwrap();
+            let lvl = match &ev.typed()[0] {
+                Some(l) => rank(l),
+                None => default.map(|d| d as usize % 4).unwrap_or(1),
+            };
+            lvl >= *min as usize % 4
+        }
+        // KindFilter: "Events that match must carry a Kind::Span / Kind::Metric … Events that don't
+        // carry any kind are not matched."
+        Pred::KindIs(k) => ev.typed()[1].as_deref() == Some(KIND_NAMES[*k as usize % 2]),
+        Pred::PullSome(slot) => ev.typed()[*slot as usize % 4].is_some(),
     }
 }
 
@@ -181,6 +229,7 @@ pub fn eval_f(f: &FS, ev: &MEv, out: &mut Expect) -> bool {
             v
         }
         FS::Empty | FS::Always => true,
+        FS::MinLevel { .. } | FS::KindIs(_) => model_pred(&f.leaf_pred().unwrap(), ev),
         // both operands are always "evaluated" by the model so that every leaf that MAY be
         // evaluated has its expected event registered; short-circuiting is don't-care
         FS::And(a, b) => {
@@ -341,6 +390,9 @@ pub struct Model {
     pub flush_result: bool,
     pub flush_reach: Vec<u32>,
     pub uses_when: bool,
+    /// per typed slot: the event's OWN first value for the key does not cast while the first AMBIENT
+    /// value does (the shadowing case a typed lookup must not fall through on)
+    pub own_blocks_ambient: [bool; 4],
 }
 
 /// Ambient properties as the ctxt kind serves them.
@@ -480,7 +532,16 @@ impl Model {
         let mut flush_reach = Vec::new();
         let flush_result = flush(&c.dest, &mut flush_reach);
 
+        let mut own_blocks_ambient = [false; 4];
+        for (slot, k) in SLOT_KEYS.iter().enumerate() {
+            let own_first = own.first(key(*k));
+            let amb_first = ambient.iter().find(|p| p.k == key(*k)).map(|p| p.v.as_str());
+            own_blocks_ambient[slot] = matches!(own_first, Some(t) if cast_text(slot, t).is_none())
+                && matches!(amb_first, Some(t) if cast_text(slot, t).is_some());
+        }
+
         Model {
+            own_blocks_ambient,
             base,
             own,
             ambient,
